@@ -3,7 +3,8 @@ open Drvlib
 
 (* C16 driver.  Commands (strings are hex tokens, "-" = empty):
    R fuel root nfiles (path nlines line* )* ninvalid text*      -> req_iter
-   F fuel root nfiles (...)* ninvalid text* nroot line* nbi url* nbe url*  -> cli_front_with | bazel_front
+   F fuel root nfiles (...)* ninvalid text* nroot line* nbi url* nbe url* nbf link* noindex  -> cli_front_full | bazel_front
+   X text                                                       -> shlex_split (drop_comment text), drop_comment text
    S nlines line*                                               -> iter_lines with relative_dir=None, no files
    B nlines line*                                               -> parse_index_urls
    A ntoks tok*                                                 -> cli_parse
@@ -77,8 +78,10 @@ let handle line =
     let root_lines = next_list st next_str in
     let bi = next_list st next_str in
     let be = next_list st next_str in
+    let bf = next_list st next_str in
+    let bno = next_bool st in
     let r = req_iter (mk_valid invalid) (mk_fs files) fuel root in
-    print_front (cli_front_with bi be r) ^ " | " ^ print_front (bazel_front r root_lines)
+    print_front (cli_front_full bi be bf bno r) ^ " | " ^ print_front (bazel_front r root_lines)
   | "S" ->
     let lines = next_list st next_str in
     let invalid = next_list st next_str in
@@ -107,6 +110,8 @@ let handle line =
     (let rs = reqs_of its in string_of_int (List.length rs) ^ " " ^ String.concat " " (List.map strs rs)) ^ " " ^
     strs (opts_of its)
   | "M" -> strs (req_meaning (next_str st))
+  | "X" -> let t = next_str st in
+    (match shlex_split (drop_comment t) with None -> "ERR" | Some l -> "OK " ^ strs l) ^ " " ^ cl_hex (drop_comment t)
   | "L" -> strs (parse_requirements_texts (next_list st next_str))
   | c -> failwith ("bad command " ^ c)
 
